@@ -4,7 +4,8 @@ Legs: (1) theorems over Model/ZonesModel.v (every reachable interval list is sor
 inserts keep positions; excluded positions never come back; closest() answers inside an interval); (2) correspondence: the same
 operation sequences run on graphite2::Zones (component harness on src/Intervals.cpp) and on the extracted model, the full
 interval list (bounds, weights, open flag) compared after every operation; (3) oracle on the implementation's own lists and
-closest() answers.  The geometric clauses (limit rectangle, resolved verdict) are exercised end to end on the Awami fonts."""
+closest() answers.  The limit clause is proved over definitions regenerated from ShiftCollider::initSlot / resolve (tie A) and checked on the real ShiftCollider (component);
+the resolved-verdict clause is exercised end to end on the Awami fonts only."""
 import os
 import vlib
 from props import shapegen as S, engine
@@ -164,6 +165,41 @@ def run(chk):
             cps = S.gen_text_seeded(rng, vlib.REPO, font, 14) if rng.random() < 0.6 else S.gen_text(rng, rep, 14)
             ecases.append(S.case_line('e%d' % len(ecases), font, S.encode(cps, 32), 32, dir_=rng.choice((1, 1, 0, 3)), ops=('dump', 'colldump')))
     _, el, _ = vlib.run_pair(None, w, ecases, timeout=2400)
+    # --- the limit clause on the real ShiftCollider (component): initSlot + resolve with everything but a sliver at one end of one axis excluded
+    ccases = []
+    texts = {'Awami_test.ttf': [0x628, 0x6cc, 0x646, 0x6af, 0x631], 'AwamiNastaliq-Regular.ttf': [0x628, 0x6cc, 0x646, 0x6af, 0x631]}
+    for k in range(6000 if chk.tier == 'thorough' else 800):
+        font = rng.choice(sorted(texts))
+        lbx, lby = rng.choice((-200, -100, -50, 0, -1000)), rng.choice((-200, -100, -50, 0, -1000))
+        ltx, lty = lbx + rng.choice((0, 50, 200, 400, 2000)), lby + rng.choice((0, 50, 200, 400, 2000))
+        # accumulated offset anywhere in the rectangle (most interesting: non-zero), current shift such that offset + shift is inside
+        px, py = rng.randrange(lbx, ltx + 1), rng.randrange(lby, lty + 1)
+        ox, oy = (0, 0) if rng.random() < 0.2 else (rng.randrange(lbx, ltx + 1), rng.randrange(lby, lty + 1))
+        sx, sy = px - ox, py - oy
+        ccases.append('g%d coll %s %s %d %d %d %d %d %d %d %d %d %d %d %d %s' % (k, font, ''.join('%08x' % c for c in texts[font]), rng.randrange(4), rng.choice((1, 1, 3)),
+                                                                           lbx, lby, ltx, lty, ox, oy, sx, sy, rng.randrange(4), rng.randrange(2), rng.choice(('0', '10', '50'))))
+    _, cl, _ = vlib.run_pair(None, w, ccases, timeout=2400)
+    ncoll = 0
+    for c, l in zip(ccases, cl):
+        if l is None:
+            chk.tie_break('harness', 'no result line', c[:300]); continue
+        t = l.split()
+        if 'ABORT' in t[1:3]:
+            chk.violation('c17:coll-abort:%s' % ' '.join(c.split()[5:16]), 'ShiftCollider aborted: %s' % l[:300], dict(case=c, got=l[:600])); continue
+        if 'shift=' not in l:
+            continue
+        f = c.split()
+        lbx, lby, ltx, lty, ox, oy, sx, sy = (float(v) for v in f[6:14])
+        sh = [x for x in t if x.startswith('shift=')][0][6:].split(',')
+        iscol = 'isCol=1' in t
+        ncoll += 1
+        classes.add(('coll', f[14], f[15], iscol, ox == 0 and oy == 0))
+        if not iscol:
+            ax, ay = ox + float(sh[0]), oy + float(sh[1])
+            tol = 1e-3 * (1 + max(abs(v) for v in (lbx, lby, ltx, lty)))
+            if not (lbx - tol <= ax <= ltx + tol and lby - tol <= ay <= lty + tol):
+                chk.violation('c17:limit:axis%s:%s' % (f[14], ' '.join(f[6:16])), 'ShiftCollider::resolve computed shift (%s, %s): accumulated offset (%g, %g) leaves the limit rectangle [(%g,%g),(%g,%g)] '
+                              '(offset (%g,%g), current shift (%g,%g), axis %s)' % (sh[0], sh[1], ax, ay, lbx, lby, ltx, lty, ox, oy, sx, sy, f[14]), dict(case=c, got=l[:600]))
     nshift = 0
     for c, l in zip(ecases, el):
         if l is None:
@@ -177,8 +213,8 @@ def run(chk):
                 if len(v) >= 7 and (float(v[4]) != 0 or float(v[5]) != 0):
                     nshift += 1
         classes.add(('e2e', c.split()[2], l.split()[1][:6] if len(l.split()) > 1 else ''))
-    chk.notes.append('zones: %d sequences, %d mixed-kind sequences compared by oracle only; end to end: %d collision-font segments, %d slots with a non-zero collision offset' % (len(cases), mixed, len(ecases), nshift))
-    chk.cov.update(evaluations=len(cases) + len(ecases), distinct_nontrivial=len(classes), disagreements_checked=ndis, distribution=dist,
+    chk.notes.append('zones: %d sequences, %d mixed-kind sequences compared by oracle only; end to end: %d collision-font segments, %d slots with a non-zero collision offset; limit clause: %d resolve() answers checked' % (len(cases), mixed, len(ecases), nshift, ncoll))
+    chk.cov.update(evaluations=len(cases) + len(ecases) + len(ccases), distinct_nontrivial=len(classes), disagreements_checked=ndis, distribution=dist,
                    rule='Zones: initialise (XY 60%% / SD 40%%, 6%% zero width) then 1-16 operations from exclude / exclude_with_margins / weighted (f, m possibly negative) / closest, end points drawn from '
                         'existing boundaries +-{0,1,2} (touching, equal, nested, overlapping, outside) on an integer lattice; full list comparison after every operation, oracle on sortedness, bounds, excluded '
                         'ranges and closest answers; end to end: Awami fonts x generated texts under ASan/UBSan; non-trivial = distinct (kind, zero width, #ops, op kinds, list length class)',
@@ -189,6 +225,20 @@ def replay(chk, obj):
     case = obj.get('replay', {}).get('case') or (obj.get('broken') or [{}])[-1].get('case')
     if not case:
         print('no case'); return 1
+    if case.split()[1] == 'coll':
+        w = engine.build(chk)
+        _, il, _ = vlib.run_pair(None, w, [case], shards=1)
+        print(case[:300]); print(' impl :', (il[0] or '')[:800])
+        f = case.split(); t = (il[0] or '').split()
+        if 'shift=' not in (il[0] or '') or 'isCol=1' in t:
+            return 1 if 'ABORT' in (il[0] or '') else 0
+        sh = [x for x in t if x.startswith('shift=')][0][6:].split(',')
+        lbx, lby, ltx, lty, ox, oy = (float(v) for v in f[6:12])
+        ax, ay = ox + float(sh[0]), oy + float(sh[1])
+        tol = 1e-3 * (1 + max(abs(v) for v in (lbx, lby, ltx, lty)))
+        bad = not (lbx - tol <= ax <= ltx + tol and lby - tol <= ay <= lty + tol)
+        print(' accumulated offset (%g, %g): %s' % (ax, ay, 'OUTSIDE the limit' if bad else 'inside'))
+        return 1 if bad else 0
     if case.split()[1] != 'zones':
         w = engine.build(chk)
         _, il, _ = vlib.run_pair(None, w, [case], shards=1)
